@@ -21,6 +21,7 @@ UNITS = {"Hbar": HBAR, "EV": EVs, "Angstrom": ANG, "AMU": AMU, "THz": THZ, "Kb":
 def run(rep: core.Report):
     rep.rule("R19a", "prefactors: <u^2> per mode = hbar/(2 m w) (1+2n) and k_B T/(m w^2) in angstrom^2 for w = 2 pi f THz, m in AMU — for ThermalMotion._get_Q2 / masses and for RandomDisplacements sigma^2 / mass", 5)
     rep.rule("R19b", "one Bose-Einstein factor: bose_einstein_dist and ThermalMotion._get_population evaluate 1/(exp(THzToEv f/(Kb T)) - 1); the population is used for every T > 0", 4)
+    rep.rule("R19d", "frame typing of the sampler's set-up: supercell positions are converted to primitive components with the matrix of matching orientation, phases contract primitive components with reduced q-points", 3)
     rep.rule("R19c", "conjugate-pair bookkeeping: q = -q+G points use real phases without the sqrt(2), the other points the sqrt(2) and (real, imag) parts with opposite signs; the partition is computed once", 5)
     want_q = HBAR * EVs * (N_ + sp.Rational(1, 2)) / (M * AMU * 2 * sp.pi * F * THZ) / ANG**2
     want_c = KB * EVs * T / (M * AMU * (2 * sp.pi * F * THZ) ** 2) / ANG**2
@@ -100,6 +101,7 @@ def run(rep: core.Report):
     rep.instance("R19b", TD, "ThermalMotion._get_population", f"condition = {conds}", conds == ["t > 0"],
                  f"the Bose-Einstein population is used only where {conds}: for temperatures between 0 and that threshold the mean-square displacements are those of T = 0, unlike the sampler's distribution", line=gp.lineno)
 
+    _r19d(rep)
     # R19c
     sii = core.find_def(RD, "RandomDisplacements._solve_ii")
     sij = core.find_def(RD, "RandomDisplacements._solve_ij")
@@ -117,6 +119,48 @@ def run(rep: core.Report):
     rep.instance("R19c", RD, "RandomDisplacements._setup_sampling_qpoints", core.src(part[0]) if part else "<vanished>", len(part) == 1 and core.src(part[0].targets[0]) == "(self._ii, self._ij)", "the ii/ij partition is not computed once by categorize_commensurate_points", line=part[0].lineno if part else 0)
 
 
+def _r19d(rep):
+    from engine import frames
+    from engine.frames import A, C, L, U
+
+    cls = core.find_def(RD, "RandomDisplacements")
+    methods = {m.name: m for m in cls.body if isinstance(m, ast.FunctionDef)}
+    seeds = {
+        "self._dynmat.supercell.scaled_positions": (A, L("s", "+")),
+        "self._dynmat.primitive.scaled_positions": (A, L("p", "+")),
+        "self._comm_points": (U, L("p", "-")),
+        "self._lpos": (A, L("p", "+")),
+        "self._spos": (A, L("p", "+")),
+        "self._ppos": (A, L("p", "+")),
+        "self._ii": (U,),
+        "self._ij": (U,),
+    }
+    typed = 0
+    nprob = 0
+    for name in ("__init__", "_prepare", "_C_to_D"):
+        fn = methods.get(name)
+        if fn is None:
+            raise AnalysisError(f"anchor vanished: RandomDisplacements.{name}")
+        params = {"q": (L("p", "-"),)} if name == "_C_to_D" else {}
+        sd = dict(seeds)
+        if name == "__init__":
+            for k in ("self._lpos", "self._spos", "self._ppos", "self._comm_points"):
+                sd.pop(k)
+        ty = frames.Typer(fn, seeds=sd, params=params, methods=methods, where=f"{RD}::{name}")
+        problems = ty.run()
+        typed += ty.n_typed
+        nprob += len(problems)
+        if name == "__init__":
+            got = ty.env.get("self._spos")
+            ok = got is not None and frames.same_axis(got[-1], L("p", "+")) is not False
+            rep.instance("R19d", RD, "RandomDisplacements.__init__", f"self._spos : {frames.show(got)}", ok and not problems,
+                         (problems[0].message if problems else f"supercell positions are stored as {frames.show(got)}, not as primitive-cell components") + ": the phase factors exp(2 pi i q.r) are evaluated at wrong positions for non-symmetric supercell matrices", line=fn.lineno)
+        else:
+            rep.instance("R19d", RD, f"RandomDisplacements.{name}", f"{ty.n_typed} contractions typed consistently", not problems, problems[0].message if problems else "", line=fn.lineno, nontrivial=ty.n_typed > 0)
+    if typed < 6 and not nprob:
+        raise AnalysisError(f"R19d: only {typed} contractions typed in RandomDisplacements")
+
+
 def selftest():
     V = []
     b = lambda name, file, old, new, rule, expect="", **kw: V.append(dict(name=name, kind="break", file=file, old=old, new=new, rule=rule, expect=expect, **kw))
@@ -127,5 +171,6 @@ def selftest():
     b("population with a different energy unit", TD, "                return 1.0 / (np.exp(freq * THzToEv / (Kb * t)) - 1)", "                return 1.0 / (np.exp(freq / (Kb * t)) - 1)", "R19b", "_get_population")
     b("sqrt(2) dropped", RD, "        return u * np.sqrt(2), conditions", "        return u, conditions", "R19c", "_solve_ij")
     b("imaginary part added", RD, "            u -= (u_red[1] * phase).imag", "            u += (u_red[1] * phase).imag", "R19c", "_solve_ij")
+    b("supercell positions converted with the transposed matrix", RD, "        tmat = np.dot(supercell.cell, np.linalg.inv(primitive.cell))", "        tmat = np.dot(supercell.cell, np.linalg.inv(primitive.cell)).T", "R19d", "__init__")
     n("Q2 factors reordered", TD, "            Hbar\n            * EV\n            / Angstrom**2", "            EV\n            * Hbar\n            / Angstrom**2")
     return V
